@@ -104,6 +104,20 @@ def _spec_of(module):
     return [s for s in SPEC if s['module'] == module][0]
 
 
+SPEC += [
+    # bufr.py BufrMessage.subset: the index logic, as two fragments (the method as a whole walks section and
+    # parameter objects and returns values of mixed types)
+    {'module': 'bufr', 'file': 'pybufrkit/bufr.py',
+     'fragments': {
+         'subset_checks': {'class': 'BufrMessage', 'method': 'subset', 'stmts': [0, 3], 'result': 'n_subsets',
+                           'params': {'subset_indices': 'list[int]'},
+                           'subst': {'self.n_subsets.value': ('n_subsets_value', 'int')}},
+         'subset_select': {'class': 'BufrMessage', 'method': 'subset', 'expr': 'ListComp',
+                           'params': {'subset_indices': 'list[int]'},
+                           'subst': {'parameter.value.decoded_values_all_subsets': ('rows', 'list[obj]')}},
+     }},
+]
+
 _spec_of('mdquery').setdefault('classes', {}).update({
     'MetadataExprParser': {'attrs': {}, 'methods': {
         'parse': {'params': {'metadata_expr': 'str'}, 'compiler': 'small',
@@ -1438,6 +1452,11 @@ class ModuleGen(object):
                 st.append('  %s : %s' % (lean_ident(k), lean_type(attrs[k])))
             func_texts.append('\n'.join(st))
             func_texts.extend(texts)
+        for fname, fs in spec.get('fragments', {}).items():     # w5-smallsrc: harness/py2lean_small.py
+            from harness import py2lean_small
+            text, item = py2lean_small.render_fragment(self, fname, fs)
+            func_texts.append(text)
+            self.items.append(item)
         head = ['/- GENERATED by harness/py2lean.py from %s — do not edit; rewritten on every check.' % spec['file'],
                 '   git blob of the source file: %s' % self.mod.blob,
                 '   Python constructs and their Lean renderings: notes/Tie.md. -/',
